@@ -74,6 +74,7 @@ func Deferred[V any](fn func() *Generator[V]) *Generator[V] {
 
 type deferredGen[V any] struct {
 	g    *Generator[V]
+	err  any // what fn panicked with, if it did
 	once sync.Once
 	fn   func() *Generator[V]
 }
@@ -85,8 +86,14 @@ func (g *deferredGen[V]) String() string {
 
 func (g *deferredGen[V]) value(t *T) V {
 	g.once.Do(func() {
+		defer func() { g.err = recover() }()
 		g.g = g.fn()
 	})
+	if g.g == nil {
+		// fn has panicked, and sync.Once does not call it again:
+		// every use of the generator fails with what the first one failed with
+		panic(g.err)
+	}
 	return g.g.value(t)
 }
 
